@@ -27,8 +27,9 @@ def _dispatches(prog, m, fn):
     """If-statements  isinstance(<x>, rs.MuxObservable)  inside fn."""
     out = []
     for n in ast.walk(fn):
-        if isinstance(n, ast.If) and isinstance(n.test, ast.Call) and dotted_name(n.test.func) == "isinstance" and len(n.test.args) == 2:
-            dn = dotted_name(n.test.args[1])
+        t = _dispatch_test(n) if isinstance(n, ast.If) else None
+        if t is not None:
+            dn = dotted_name(t.args[1])
             if dn is None:
                 continue
             ref = prog.resolve_dotted(m, dn)
@@ -37,9 +38,32 @@ def _dispatches(prog, m, fn):
     return out
 
 
+def _dispatch_test(n):
+    """the isinstance(...) call of ``if isinstance(x, T)`` / ``if not isinstance(x, T)``"""
+    t = n.test
+    if isinstance(t, ast.UnaryOp) and isinstance(t.op, ast.Not):
+        t = t.operand
+    if isinstance(t, ast.Call) and dotted_name(t.func) == "isinstance" and len(t.args) == 2:
+        return t
+    return None
+
+
+def _negated(d):
+    return isinstance(d.test, ast.UnaryOp) and isinstance(d.test.op, ast.Not)
+
+
+def mux_arm(m, d):
+    return plain_arm_raw(m, d) if _negated(d) else list(d.body)
+
+
 def plain_arm(m, d):
-    """Statements executed when the dispatch test is false: the else block, or - when the mux arm always
-    returns - the statements that follow the ``if`` in its block (``if mux: return A`` / ``return B``)."""
+    """Statements executed for a plain Observable (the else block of ``if isinstance(..)``, the body of ``if not isinstance(..)``)"""
+    return list(d.body) if _negated(d) else plain_arm_raw(m, d)
+
+
+def plain_arm_raw(m, d):
+    """Statements executed when the ``if`` test is false: the else block, or - when the body always
+    returns - the statements that follow the ``if`` in its block (``if c: return A`` / ``return B``)."""
     if d.orelse:
         return d.orelse
     if d.body and isinstance(d.body[-1], (ast.Return, ast.Raise)):
@@ -93,7 +117,7 @@ def _dispatch_helpers(prog):
                             and rets[0].value.func.id in params and len(rets[0].value.args) == 1:
                         return rets[0].value.func.id
                     return None
-                a, c = applied(d.body), applied(plain_arm(m, d))
+                a, c = applied(mux_arm(m, d)), applied(plain_arm(m, d))
                 if a is not None and c is not None and a != c:
                     out[H] = (a, c)
     prog.__dict__["_dispatch_helpers"] = out
@@ -106,7 +130,8 @@ def dispatch_sites(prog, m, fn, own_only=False):
         if own_only and m.enclosing_function(d) is not fn:
             continue
         pa = plain_arm(m, d)
-        out.append(Dispatch(d, list(d.body), list(pa), _arm_call(d.body), _arm_call(pa), "if"))
+        ma = mux_arm(m, d)
+        out.append(Dispatch(d, list(ma), list(pa), _arm_call(ma), _arm_call(pa), "if"))
     helpers = _dispatch_helpers(prog)
     if helpers and fn not in helpers:
         for n in ast.walk(fn):
@@ -341,7 +366,8 @@ def rule_ag3_small(ctx: Ctx):
             ems = [m for m in emissions(p) if m.method == "on_next"]
             elems = []
             for m in ems:
-                if m.event is not None and m.event.how == "replace":
+                if m.event is not None and (m.event.how == "replace" or (kind is not None and m.event.kind == "Next")):
+                    # i._replace(item=elem)  /  OnNextMux(key=i.key, item=elem, store=i.store)
                     elems.append("elem" if m.event.payload[0] == "loopvar" and m.event.keyclass == SAME else "other")
                 else:
                     elems.append("elem" if m.eff.arg[0] == "loopvar" else "other")
